@@ -84,6 +84,7 @@ type Report struct {
 	SwappedImports []string `json:"swapped_imports"`
 	TimeRedirects  int      `json:"time_redirects"`
 	GoStmts        int      `json:"go_stmts"`
+	ChanOps        int      `json:"channel_ops_rewritten"`
 	Unmodelled     []string `json:"unmodelled"`
 	Refusals       []string `json:"refusals"`
 	Knobs          []Knob   `json:"knobs"`
@@ -465,6 +466,8 @@ func instrumentFile(fset *token.FileSet, fc *fileCtx, rep *Report, info *types.I
 		}
 	}
 
+	inComm := map[ast.Node]bool{}
+	recv2 := map[*ast.UnaryExpr]bool{}
 	funcName := ""
 	addSite := func(kind string, lbrace token.Pos) {
 		id := *nextSite
@@ -526,8 +529,8 @@ func instrumentFile(fset *token.FileSet, fc *fileCtx, rep *Report, info *types.I
 							rep.MapRangeSites = append(rep.MapRangeSites, fmt.Sprintf("%s:%d", fc.rel, p.Line))
 						}
 					case *types.Chan:
-						p := fset.Position(x.Pos())
-						rep.Refusals = append(rep.Refusals, fmt.Sprintf("%s:%d: range over channel", fc.rel, p.Line))
+						rep.ChanOps++
+						rewriteChanRange(fset, fc, x, *nextSite)
 					}
 				}
 			}
@@ -535,15 +538,75 @@ func instrumentFile(fset *token.FileSet, fc *fileCtx, rep *Report, info *types.I
 			rep.GoStmts++
 			rewriteGo(fset, fc, rep, x, info)
 		case *ast.SendStmt:
-			p := fset.Position(x.Pos())
-			rep.Refusals = append(rep.Refusals, fmt.Sprintf("%s:%d: channel send", fc.rel, p.Line))
+			if !inComm[x] {
+				rep.ChanOps++
+				fc.insert(fc.off(fset, x.Pos()), rtName+".ChanSend(")
+				fc.replace(fc.off(fset, x.Arrow), 2, ",")
+				fc.insert(fc.off(fset, x.End()), ")")
+			}
 		case *ast.SelectStmt:
-			p := fset.Position(x.Pos())
-			rep.Refusals = append(rep.Refusals, fmt.Sprintf("%s:%d: select", fc.rel, p.Line))
+			rep.ChanOps++
+			rewriteSelect(fset, fc, rep, x, inComm, *nextSite)
+			*nextSite++
+		case *ast.AssignStmt:
+			if len(x.Lhs) == 2 && len(x.Rhs) == 1 {
+				if u, ok := ast.Unparen(x.Rhs[0]).(*ast.UnaryExpr); ok && u.Op == token.ARROW {
+					recv2[u] = true
+				}
+			}
+			noteGlobalWrites(fset, fc, rep, info, funcName, x.Lhs, x.Tok == token.DEFINE)
+		case *ast.ValueSpec:
+			if len(x.Names) == 2 && len(x.Values) == 1 {
+				if u, ok := ast.Unparen(x.Values[0]).(*ast.UnaryExpr); ok && u.Op == token.ARROW {
+					recv2[u] = true
+				}
+			}
 		case *ast.UnaryExpr:
-			if x.Op == token.ARROW {
-				p := fset.Position(x.Pos())
-				rep.Refusals = append(rep.Refusals, fmt.Sprintf("%s:%d: channel receive", fc.rel, p.Line))
+			if x.Op == token.ARROW && !inComm[x] {
+				rep.ChanOps++
+				fn := ".ChanRecv("
+				if recv2[x] {
+					fn = ".ChanRecv2("
+				}
+				fc.replace(fc.off(fset, x.OpPos), 2, rtName+fn)
+				fc.insert(fc.off(fset, x.End()), ")")
+			}
+		case *ast.CallExpr:
+			if id, ok := x.Fun.(*ast.Ident); ok && id.Obj == nil && id.Name == "make" && len(x.Args) >= 1 {
+				isChan := false
+				if _, ok := x.Args[0].(*ast.ChanType); ok {
+					isChan = true
+				} else if info != nil {
+					if tv, ok := info.Types[x.Args[0]]; ok && tv.Type != nil {
+						_, isChan = tv.Type.Underlying().(*types.Chan)
+					}
+				}
+				if isChan {
+					// a fresh channel: the scheduler forgets whatever an earlier channel at the same address left behind
+					fc.insert(fc.off(fset, x.Pos()), rtName+".ChanMake(")
+					fc.insert(fc.off(fset, x.End()), ")")
+				}
+			}
+			if id, ok := x.Fun.(*ast.Ident); ok && id.Obj == nil && len(x.Args) == 1 {
+				switch id.Name {
+				case "make":
+				case "close":
+					rep.ChanOps++
+					fc.replace(fc.off(fset, id.Pos()), len(id.Name), rtName+".ChanClose")
+				case "len":
+					if info != nil {
+						if tv, ok := info.Types[x.Args[0]]; ok && tv.Type != nil {
+							if ct, ok := tv.Type.Underlying().(*types.Chan); ok {
+								if ct.Dir() == types.SendRecv {
+									fc.replace(fc.off(fset, id.Pos()), len(id.Name), rtName+".ChanLen")
+								} else {
+									p := fset.Position(x.Pos())
+									rep.Unmodelled = append(rep.Unmodelled, fmt.Sprintf("%s:%d: len of a directional channel", fc.rel, p.Line))
+								}
+							}
+						}
+					}
+				}
 			}
 		case *ast.SelectorExpr:
 			if isPkgIdent(x.X, "time") {
@@ -570,8 +633,6 @@ func instrumentFile(fset *token.FileSet, fc *fileCtx, rep *Report, info *types.I
 					rep.Unmodelled = append(rep.Unmodelled, fmt.Sprintf("%s:%d: runtime.%s", fc.rel, p.Line, x.Sel.Name))
 				}
 			}
-		case *ast.AssignStmt:
-			noteGlobalWrites(fset, fc, rep, info, funcName, x.Lhs, x.Tok == token.DEFINE)
 		case *ast.IncDecStmt:
 			noteGlobalWrites(fset, fc, rep, info, funcName, []ast.Expr{x.X}, false)
 		}
@@ -949,4 +1010,114 @@ func rewriteMapRange(fset *token.FileSet, fc *fileCtx, x *ast.RangeStmt, mt *typ
 	lb := fc.off(fset, x.Body.Lbrace)
 	fc.replace(start, lb+1-start, hdr+pre)
 	return true
+}
+
+// rewriteChanRange: `for v := range ch {` -> `for { v, ok := ChanRecv2(ch); if !ok { break };`
+func rewriteChanRange(fset *token.FileSet, fc *fileCtx, x *ast.RangeStmt, uniq int) {
+	text := func(n ast.Node) string { return string(fc.src[fc.off(fset, n.Pos()):fc.off(fset, n.End())]) }
+	okv := fmt.Sprintf("verifok%d", uniq)
+	ch := text(x.X)
+	var pre string
+	switch {
+	case x.Key == nil:
+		pre = fmt.Sprintf("for { _, %s := %s.ChanRecv2(%s); if !%s { break };", okv, rtName, ch, okv)
+	case x.Tok == token.DEFINE:
+		pre = fmt.Sprintf("for { %s, %s := %s.ChanRecv2(%s); if !%s { break };", text(x.Key), okv, rtName, ch, okv)
+	default:
+		pre = fmt.Sprintf("for { var %s bool; %s, %s = %s.ChanRecv2(%s); if !%s { break };", okv, text(x.Key), okv, rtName, ch, okv)
+	}
+	start := fc.off(fset, x.For)
+	lb := fc.off(fset, x.Body.Lbrace)
+	fc.replace(start, lb+1-start, pre)
+}
+
+// rewriteSelect turns a select statement into a switch over verifsimrt.Select.
+func rewriteSelect(fset *token.FileSet, fc *fileCtx, rep *Report, x *ast.SelectStmt, inComm map[ast.Node]bool, uniq int) {
+	text := func(n ast.Node) string { return string(fc.src[fc.off(fset, n.Pos()):fc.off(fset, n.End())]) }
+	sel := fmt.Sprintf("verifsel%d", uniq)
+	val := fmt.Sprintf("verifval%d", uniq)
+	okv := fmt.Sprintf("verifselok%d", uniq)
+	hasDefault := false
+	var cases []string
+	type clause struct {
+		cc      *ast.CommClause
+		idx     int
+		prelude string
+	}
+	var cls []clause
+	plain := func(e ast.Expr) bool {
+		for {
+			switch y := e.(type) {
+			case *ast.Ident:
+				return true
+			case *ast.SelectorExpr:
+				e = y.X
+			case *ast.ParenExpr:
+				e = y.X
+			default:
+				return false
+			}
+		}
+	}
+	for _, st := range x.Body.List {
+		cc := st.(*ast.CommClause)
+		if cc.Comm == nil {
+			hasDefault = true
+			cls = append(cls, clause{cc: cc, idx: -1})
+			continue
+		}
+		ast.Inspect(cc.Comm, func(n ast.Node) bool {
+			if n != nil {
+				inComm[n] = true
+			}
+			return true
+		})
+		idx := len(cases)
+		pre := ""
+		switch c := cc.Comm.(type) {
+		case *ast.SendStmt:
+			cases = append(cases, fmt.Sprintf("%s.SelSend(%s, %s)", rtName, text(c.Chan), text(c.Value)))
+		case *ast.ExprStmt:
+			u, ok := ast.Unparen(c.X).(*ast.UnaryExpr)
+			if !ok || u.Op != token.ARROW {
+				rep.Refusals = append(rep.Refusals, fmt.Sprintf("%s:%d: unsupported select case", fc.rel, fset.Position(cc.Pos()).Line))
+				return
+			}
+			cases = append(cases, fmt.Sprintf("%s.SelRecv(%s)", rtName, text(u.X)))
+		case *ast.AssignStmt:
+			u, ok := ast.Unparen(c.Rhs[0]).(*ast.UnaryExpr)
+			if !ok || u.Op != token.ARROW || !plain(u.X) {
+				rep.Refusals = append(rep.Refusals, fmt.Sprintf("%s:%d: unsupported select case (channel expression must be a plain name)", fc.rel, fset.Position(cc.Pos()).Line))
+				return
+			}
+			cases = append(cases, fmt.Sprintf("%s.SelRecv(%s)", rtName, text(u.X)))
+			tok := c.Tok.String()
+			if len(c.Lhs) == 2 {
+				pre = fmt.Sprintf(" %s, %s %s %s.SelVal(%s, %s), %s;", text(c.Lhs[0]), text(c.Lhs[1]), tok, rtName, text(u.X), val, okv)
+			} else {
+				pre = fmt.Sprintf(" %s %s %s.SelVal(%s, %s);", text(c.Lhs[0]), tok, rtName, text(u.X), val)
+			}
+		}
+		cls = append(cls, clause{cc: cc, idx: idx, prelude: pre})
+	}
+	hd := "false"
+	if hasDefault {
+		hd = "true"
+	}
+	args := hd
+	if len(cases) > 0 {
+		args += ", " + strings.Join(cases, ", ")
+	}
+	start := fc.off(fset, x.Select)
+	lb := fc.off(fset, x.Body.Lbrace)
+	fc.replace(start, lb+1-start, fmt.Sprintf("switch %s, %s, %s := %s.Select(%s); %s {", sel, val, okv, rtName, args, sel))
+	for _, cl := range cls {
+		cs := fc.off(fset, cl.cc.Case)
+		colon := fc.off(fset, cl.cc.Colon)
+		if cl.idx < 0 {
+			fc.replace(cs, colon+1-cs, fmt.Sprintf("default: _, _ = %s, %s;", val, okv))
+		} else {
+			fc.replace(cs, colon+1-cs, fmt.Sprintf("case %d: _, _ = %s, %s;%s", cl.idx, val, okv, cl.prelude))
+		}
+	}
 }
